@@ -2209,4 +2209,51 @@ theorem do_missing_key_rows (t : Table) (f : DoFn) (k : String) (n : Nat) (hr : 
 /-- non-vacuity of `do_missing_key_rows` -/
 example : Table.Rect [("a", [Cell.int 1])] 1 ∧ Table.has [("a", [Cell.int 1])] "zz" = false := by decide
 
+/-- **deviation 2, the `call` twin (a table without rows)**: `d(k = f)` for ANY callable `f` - also one whose parameter is no column of the table -
+ADDS the empty column `k` when there is no row (`res.apply(f)` calls `f` once per row: never), where with at least one row such a callable is a
+TypeError (`call_missing_param_rows`).  Open since review t1 (item 3). -/
+theorem call_missing_param_empty (t : Table) (f : Fn) (k : String) (hr : t.Rect 0) :
+    t.call [] [(k, f)] = .ok (t.set k []) ∧ k ∈ (t.set k []).cols := by
+  have hn : t.nrows = 0 := by
+    cases t with
+    | nil => rfl
+    | cons c t => exact hr c List.mem_cons_self
+  have hlen := len_rect' hr
+  refine ⟨?_, ?_⟩
+  · have hu : t.update [] = (t, Option.none) := rfl
+    simp only [call, updateE, hu, callLoop, List.length_cons, List.length_nil, Nat.lt_irrefl, gt_iff_lt, if_false, setFns, setFn,
+      applyFnK, hn, List.range_zero, mapE, setitem, hlen, ColVal.value, beq_self_eq_true, Bool.true_or, if_true, Nat.zero_add]
+  · by_cases hk : t.has k = true
+    · simp only [Table.set, hk, if_true, cols, List.map_map, List.mem_map, Function.comp]
+      simp only [has, List.any_eq_true] at hk
+      obtain ⟨x, hx, hxk⟩ := hk
+      refine ⟨x, hx, ?_⟩
+      simp [hxk]
+    · simp [Table.set, hk, cols]
+
+/-- non-vacuity: a table with one column and no row, a callable reading a column it lacks -/
+example : Table.Rect [("a", [])] 0 ∧ Table.call [("a", [])] [] [("k", .idcol "zz")] = .ok [("a", []), ("k", [])] := ⟨by decide, rfl⟩
+
+/-- ... with at least one row a callable whose parameter is neither a column nor `key` is a TypeError, as `f(**row)` is for a list of records -/
+theorem call_missing_param_rows (t : Table) (k zz : String) (n : Nat) (hr : t.Rect (n + 1)) (hne : t ≠ [])
+    (hz : t.has zz = false) (hkey : zz ≠ "key") : t.call [] [(k, .idcol zz)] = .error .type := by
+  have hn : t.nrows = n + 1 := by
+    cases t with
+    | nil => exact absurd rfl hne
+    | cons c t => exact hr c List.mem_cons_self
+  have hc : t.col? zz = Option.none := by
+    unfold col?
+    have : t.find? (·.1 == zz) = Option.none := by
+      rw [List.find?_eq_none]
+      intro x hx hxk
+      have : t.has zz = true := by simp only [has, List.any_eq_true]; exact ⟨x, hx, hxk⟩
+      simp [this] at hz
+    simp [this]
+  have hk' : (zz == "key") = false := by simpa using hkey
+  have hu : t.update [] = (t, Option.none) := rfl
+  simp only [call, updateE, hu, callLoop, List.length_cons, List.length_nil, Nat.lt_irrefl, gt_iff_lt, if_false, setFns, setFn,
+    applyFnK, hn, List.range_succ_eq_map, mapE, Fn.eval, keyDflt, cellAt, hc, Option.map_none, hk', Bool.false_eq_true, Nat.zero_add]
+
+example : Table.Rect [("a", [Cell.int 1])] 1 ∧ Table.has [("a", [Cell.int 1])] "zz" = false := by decide
+
 end Pyg.Props.C01
